@@ -19,7 +19,14 @@ RULE = ("seeded histories: terminal 1-4 rows x 1-5 columns, 1-6 steps of render 
         "Each history: the real writes are tokenised (capability strings regenerated from blessed) and must equal the "
         "model's operations; the reference terminal, the Lean terminal spec and pyte must agree on the screen. "
         "non-trivial = distinct histories with at least two steps or a non-empty array")
-ASSUMPTIONS = ["rows are made of single-column characters without ESC/0x9b (C01's domain; wide characters are C10's)",
+ASSUMPTIONS = ["rows are made of printable single-column characters: no control character (C0, DEL, C1 - so no ESC/0x9b, "
+               "newline, tab), no wide or combining character (wide characters are C10's); a row containing e.g. a newline "
+               "is written as it is and a real terminal then no longer shows the array (three such histories are run for the "
+               "tie only, tag outside-domain)",
+               "the terminal is in its default graphic state when a render starts (`t.g = {}`: every str(FmtStr) ends in it, "
+               "so the window never leaves another one; an application that left SGR attributes on would see them applied)",
+               "FullscreenWindow.__enter__/__exit__ (alternate screen, cursor visibility) are tied to the model's "
+               "fullscreenEnter/fullscreenExit here; restoring the terminal on exit is C12's property",
                "cursor_pos lies on the screen", "terminal has at least one row and one column",
                "the terminal implements ECMA-48/xterm semantics as written in lean/Curtsies/Spec/Term.lean "
                "(cross-checked against pyte on every run, which is evidence, not proof)"]
@@ -49,6 +56,7 @@ def fresh_window(hide):
             old = reset(_pool["win"], hide)
             keys = ("hide_cursor", "_last_lines_by_row", "_last_rendered_width", "_last_rendered_height")
             assert set(vars(old)) - {"_size"} == set(vars(new)) and all(getattr(old, k) == getattr(new, k) for k in keys)
+            assert type(old.fullscreen_ctx) is type(new.fullscreen_ctx)
         _pool["win"], _pool["rec"] = new, rec
     _pool["rec"].take()
     return reset(_pool["win"], hide), _pool["rec"]
@@ -56,6 +64,7 @@ def fresh_window(hide):
 
 def reset(win, hide):
     win.hide_cursor = hide
+    win.fullscreen_ctx = win.t.fullscreen()      # what __init__ does; the context manager is single-use
     win._last_lines_by_row = {}
     win._last_rendered_width = win._last_rendered_height = None
     return win
@@ -111,9 +120,15 @@ def run_history(c):
                 py.resize(h, w, junk)
             out.append(dict(resized=True))
             continue
-        _, pos, rows, container = st
         before = ref.state()
-        win.render_to_terminal(mk_array(rows, container), tuple(pos))
+        if st[0] in ("E", "X"):
+            if st[0] == "E":
+                win.__enter__()
+            else:
+                win.__exit__(None, None, None)
+        else:
+            _, pos, rows, container = st
+            win.render_to_terminal(mk_array(rows, container), tuple(pos))
         writes = rec.take()
         try:
             ops = tokenize(writes)
@@ -158,6 +173,8 @@ def line(c):
     for st in c["steps"]:
         if st[0] == "Z":
             steps.append("Z:%dx%d:%s" % (st[1], st[2], enc_rows(st[3])))
+        elif st[0] in ("E", "X"):
+            steps.append(st[0])
         else:
             steps.append("R:%d,%d:%s" % (st[1][0], st[1][1], enc_array(st[2])))
     return "fs %dx%d %s %d,%d %d %s" % (c["h"], c["w"], enc_rows(c["junk"]), c["cursor"][0], c["cursor"][1],
@@ -171,6 +188,8 @@ def oracle(c, outs):
         if st[0] == "Z":
             h, w = st[1], st[2]
             continue
+        if st[0] in ("E", "X") or c.get("outside_domain"):
+            continue            # entering/leaving is C12's business (tied here); rows with control characters are not judged
         if "error" in o:
             return "step %d: %s" % (i, o["error"])
         _, pos, rows, _ = st
@@ -281,6 +300,10 @@ def rand_history(r, pyte=True):
             rows = rand_array(r, h, w, prev)
             prev, rendered_at = rows, (h, w)
             c["steps"].append(("R", (r.randint(0, h - 1), r.randint(0, w - 1)), rows, container_for(r, rows)))
+    if pyte and r.random() < 0.25:
+        # inside the context: enter (alternate screen, hide the cursor) ... leave.  pyte has no alternate screen.
+        c["steps"] = [("E",)] + c["steps"] + [("X",)]
+        c["pyte"] = False
     return c
 
 
@@ -322,8 +345,8 @@ def pair_cases(ctx):
         else:
             ctx.exhaustive.append("%dx%d ALL ordered pairs over %d cell values, arrays <=%d rows of <=%d cells: %d"
                                   % (h, w, len(vals), maxh, maxlen, total))
-        for i, j in pairs:
-            cases.append(dict(h=h, w=w, junk=[], cursor=(0, 0), hide=True, pyte=False,
+        for n, (i, j) in enumerate(pairs):
+            cases.append(dict(h=h, w=w, junk=[], cursor=(0, 0), hide=True, pyte=(ctx.thorough or n % 8 == 0), pair=True,
                               steps=[("R", (0, 0), arrays[i], "list"), ("R", (h - 1, w - 1), arrays[j], "list")]))
     return cases
 
@@ -377,6 +400,13 @@ def check(ctx):
     r = ctx.rng
     cases = [rand_history(r) for _ in range(6000 if ctx.thorough else 1500)]
     cases += pair_cases(ctx)
+    # OUTSIDE the domain (control characters in a row): model and code are still compared, nothing is judged.
+    # What happens: the newline is written as it is; a real terminal moves down a row (and scrolls on the bottom row)
+    # instead of showing a glyph, so the screen no longer matches the array -- the reference terminal of the check
+    # stores it as a cell, which is why such rows are excluded (`Printable`).
+    for rows in ([[("a\nb", {})]], [[("ab", {"fg": 31})], [("\tx", {})]], [[("a\rb", {})], []]):
+        cases.append(dict(h=2, w=4, junk=[], cursor=(0, 0), hide=True, pyte=False, outside_domain=True,
+                          steps=[("R", (0, 0), rows, "list"), ("R", (1, 1), rows[:1], "list")]))
     outs = {}
 
     def impl(c):
@@ -393,7 +423,7 @@ def check(ctx):
     for c in cases:
         nsteps = len(c["steps"])
         ctx.count(c, nontrivial=nsteps > 1 or any(s[0] == "R" and s[2] for s in c["steps"]),
-                  tag="pair" if not c["pyte"] else "history:%d" % nsteps)
+                  tag="pair" if c.get("pair") else "outside-domain" if c.get("outside_domain") else "history:%d" % nsteps)
         w = safe_oracle(c, outs[id(c)])
         if w:
             ctx.violation(w, c, None)
